@@ -28,7 +28,6 @@
 From Dino Require Import Base.Ops Base.Sums Base.Inst Gen.DerivExprs Model.SHT Model.Deriv Model.Invariants Model.Sigma Model.Implicit
      Model.PrimEq Model.Symmetry Model.ShallowWater Model.Legendre Gen.Legendre Thm.Deriv Thm.Implicit Thm.Symmetry Thm.ShallowWater
      Thm.Legendre Thm.SymmetryLegendre.
-From Dino Require Import Model.Filters Model.PrimEq Model.Implicit Gen.PrimEqSrc Thm.PrimEqSrc.
 From Coq Require Import Qcanon.
 Local Open Scope F_scope.
 
@@ -823,6 +822,7 @@ Proof.
   repeat split; apply Qc_is_canon; vm_compute; reflexivity.
 Qed.
 
+From Dino Require Import Model.Filters Model.PrimEq Model.Implicit Gen.PrimEqSrc Thm.PrimEqSrc.
 (** ** Tie to the source by translation: the nodal column algebra of Model/PrimEq.v that this property reasons about
     is the code of dinosaur/primitive_equations.py (transcribed from the AST on every run by tools/translate/gen_primeq.py). *)
 Theorem C10_model_is_source {F : Type} {o : Ops F} {Fc : FieldC o} (c : @PEcfg F) (m : @Moist F)
